@@ -87,12 +87,12 @@ Qed.
 Lemma bytes_of_app a b : bytes_of (a ++ b) = bytes_of a ++ bytes_of b.
 Proof. unfold bytes_of, unrecords. apply flat_map_app. Qed.
 
-Theorem stateless_tool_split (F : list line -> list line) :
+Theorem stateless_tool_split (F : list line -> list line) (cr : bool) :
   (forall a b, F (a ++ b) = F a ++ F b) ->
-  forall A B, bytes_of (F (lines_of (A ++ newline :: B))) =
-              bytes_of (F (lines_of (A ++ [newline]))) ++ bytes_of (F (lines_of B)).
+  forall A B, bytes_of (F (records newline cr (A ++ newline :: B))) =
+              bytes_of (F (records newline cr (A ++ [newline]))) ++ bytes_of (F (records newline cr B)).
 Proof.
-  intros HF A B. unfold lines_of. rewrite records_app_terminated, HF. apply bytes_of_app.
+  intros HF A B. rewrite records_app_terminated, HF. apply bytes_of_app.
 Qed.
 
 (* ---- subtract_lines and commoncrawl_dedupe on the seen-set ---- *)
@@ -314,7 +314,7 @@ Section SimpleCleaning.
   Lemma take_fields_all_safe d : 0 <= d < 128 -> safe_byte d = true ->
     forall fuel rest, take_fields script_of is_punct is_uspace script_common script_inherited too_common little_punct script_low o
                                   fuel None d rest = inl true ->
-    (fuel > length rest)%nat -> wf_utf8 rest = true /\ safe_bytes rest = true.
+    (fuel > S (length rest))%nat -> wf_utf8 rest = true /\ safe_bytes rest = true.
   Proof.
     intros Hd Sd. induction fuel as [|fuel IH]; intros rest H Hf; [lia|].
     cbn [take_fields] in H. destruct (split_first d rest []) as [field after] eqn:Sp.
@@ -322,13 +322,11 @@ Section SimpleCleaning.
     destruct (sc_filter field) eqn:F; cbn [negb] in H; [|discriminate].
     destruct (sc_filter_safe field F) as [Wf Sf].
     assert (Wd : wf_utf8 [d] = true) by (apply wf_utf8_ascii; auto).
-    destruct after as [[|x r]|].
-    - rewrite E. split; [apply wf_utf8_app; auto|]. unfold safe_bytes. rewrite forallb_app. fold (safe_bytes field).
-      rewrite Sf. simpl. rewrite Sd. reflexivity.
-    - assert (Hlen : (length (x :: r) < length rest)%nat).
+    destruct after as [r|].
+    - assert (Hlen : (length r < length rest)%nat).
       { rewrite E, app_length. simpl. lia. }
-      destruct (IH (x :: r) H ltac:(lia)) as [Wr Sr]. rewrite E. split.
-      + apply wf_utf8_app; auto. change (d :: x :: r) with ([d] ++ x :: r). apply wf_utf8_app; auto.
+      destruct (IH r H ltac:(lia)) as [Wr Sr]. rewrite E. split.
+      + apply wf_utf8_app; auto. change (d :: r) with ([d] ++ r). apply wf_utf8_app; auto.
       + unfold safe_bytes. rewrite forallb_app. fold (safe_bytes field). rewrite Sf. cbn [forallb andb].
         rewrite Sd. exact Sr.
     - rewrite E, app_nil_r. auto.
@@ -340,12 +338,12 @@ Section SimpleCleaning.
   Proof.
     intros Hd Sd. unfold sc_line_keep. cbn [individual_fields Nat.sub skip_fields Nat.max].
     destruct (take_fields script_of is_punct is_uspace script_common script_inherited too_common little_punct script_low o
-                          (S (length l)) None d l) as [[|]|rest] eqn:T; try discriminate.
+                          (S (S (length l))) None d l) as [[|]|rest] eqn:T; try discriminate.
     - intros _. eapply take_fields_all_safe; eauto.
     - (* the unbounded range is never "exhausted" *)
-      exfalso. revert T. generalize (S (length l)) as fuel. intros fuel; revert l.
+      exfalso. revert T. generalize (S (S (length l))) as fuel. intros fuel; revert l.
       induction fuel as [|fuel IH]; intros l T; [discriminate|].
       cbn [take_fields] in T. destruct (split_first d l []) as [field after].
-      destruct (negb (sc_filter field)); [discriminate|]. destruct after as [[|x r]|]; try discriminate. eauto.
+      destruct (negb (sc_filter field)); [discriminate|]. destruct after as [r|]; try discriminate. eauto.
   Qed.
 End SimpleCleaning.
